@@ -450,6 +450,8 @@ def plan_xo(pid, tr, sd):
                 jobs.append((pid, "c05", label, t, gens[0], dict(pls[1], form="ndarray")))
             if wmode.has_string(t):
                 jobs.append((pid, "c05", label, t, gens[0], dict(pls[i % 2], capform=True)))
+            if t[0] == "array" and t[1][0] == "scalar" and len(t[2]) >= 2 and any(d is None for d in t[2]):
+                jobs.append((pid, "c05np", label, t, gens[0], dict(pls[i % 2])))
         elif pid == "C03":
             for pl in rot(i, pls, npl):
                 jobs.append((pid, "c03", label, t, gens[0], dict(pl)))
